@@ -52,8 +52,11 @@ pub fn compute_group_key_from_exprs<'a>(
 ) -> Vec<u8> {
     let mut key = Vec::new();
     for expr in group_by_exprs {
-        if let Some(val) = expr.evaluate_to_value(row) {
-            val.encode_to_key(&mut key);
+        match expr.evaluate_to_value(row) {
+            Some(val) => val.encode_to_key(&mut key),
+            // a key expression without a value is a NULL key; leaving it out would merge the
+            // groups (NULL, x) and (x, NULL)
+            None => Value::Null.encode_to_key(&mut key),
         }
     }
     key
